@@ -307,7 +307,7 @@ func (u *Url) IsIPv6() bool {
 
 // Clone returns a deep copy of the URL.
 func (u *Url) Clone() *Url {
-	return &Url{
+	c := &Url{
 		inputUrl:     u.inputUrl,
 		scheme:       u.scheme,
 		username:     u.username,
@@ -323,6 +323,9 @@ func (u *Url) Clone() *Url {
 		isIPv4:       u.isIPv4,
 		isIPv6:       u.isIPv6,
 	}
+	// the cloned search parameters belong to the clone, not to the original
+	c.searchParams.url = c
+	return c
 }
 
 func cloneStringPointer(s *string) *string {
